@@ -92,7 +92,7 @@ def same_value(t, a, b):
 
 
 class NodeRunner:
-    def __init__(self, timeout_s=20.0):
+    def __init__(self, timeout_s=180.0):
         self.node = find_node()
         self.timeout_s = timeout_s
         self.proc = None
@@ -150,8 +150,9 @@ class NodeRunner:
         line, self._buf = self._buf.split(b"\n", 1)
         return line
 
-    def run(self, wasm, calls=(), globals=None, memory=None, imports=False, memlo=256):
-        """calls: [(export, [(type, value)...], [result types])]."""
+    def run(self, wasm, calls=(), globals=None, memory=None, imports=False, memlo=256, timeout_s=None):
+        """calls: [(export, [(type, value)...], [result types])].  timeout_s overrides the runner's default
+        for this job (NodeTimeout kills the node process; the next job starts a new one)."""
         if self.proc is None or self.proc.poll() is not None:
             self._start()
         self.nid += 1
@@ -170,7 +171,13 @@ class NodeRunner:
         except (BrokenPipeError, OSError):
             self.close()
             raise NodeError("node pipe broken")
-        ans = json.loads(self._readline())
+        saved = self.timeout_s
+        if timeout_s is not None:
+            self.timeout_s = timeout_s
+        try:
+            ans = json.loads(self._readline())
+        finally:
+            self.timeout_s = saved
         if "error" in ans:
             raise NodeError(ans["error"])
         if ans.get("id") != self.nid:
